@@ -57,7 +57,7 @@ def run_group(G, tier, seed, only_cases=None):
                 r = vk.tlc_check(G["model_spec"] if "spec" not in m else m["spec"], m["cfg"], work,
                                  workers=m.get("workers", 8), timeout=m.get("timeout", 600),
                                  coverage=m.get("coverage", True), want_emit=m.get("emit", False),
-                                 simulate=m.get("simulate"))
+                                 simulate=m.get("simulate"), sim_seed=seed)
                 if r["violated"]:
                     raise vk.ToolError(f"model {m['cfg']} violates {r['violated']}: the Level-B spec itself breaks "
                                        f"the property (see {r['out']})")
